@@ -273,7 +273,7 @@ class Run:
 
         replay_paths: list[str] = []
         if acc.violations:
-            rdir = os.path.join(VERIF, "replays", self.prop)
+            rdir = os.path.join(os.environ.get("VERIF_REPLAY_DIR") or os.path.join(VERIF, "replays"), self.prop)
             os.makedirs(rdir, exist_ok=True)
             for v in acc.violations:
                 body = {
@@ -324,10 +324,10 @@ class Run:
             "wall_s": round(wall, 2),
             "violations": acc.nviol,
         }
-        os.makedirs(os.path.join(VERIF, "evidence"), exist_ok=True)
-        with open(
-            os.path.join(VERIF, "evidence", f"{self.prop}.json"), "w", encoding="utf-8"
-        ) as fd:
+        # development runs against scratch trees (pv.seedtest) must not overwrite the committed evidence
+        evdir = os.environ.get("VERIF_EVIDENCE_DIR") or os.path.join(VERIF, "evidence")
+        os.makedirs(evdir, exist_ok=True)
+        with open(os.path.join(evdir, f"{self.prop}.json"), "w", encoding="utf-8") as fd:
             json.dump(ev, fd, indent=1, ensure_ascii=True)
             fd.write("\n")
 
